@@ -154,7 +154,21 @@ func runC01(c *rt.Ctx) {
 				{Kind: "get", Key: "sw"},
 				{Kind: "append", Key: "sw", Val: "tail", Port: 0},
 				{Kind: "mget", Keys: []string{"sw", "nope"}, Quiet: []bool{cfg.Proto == "binary", false}},
+				{Kind: "prepend", Key: "sw", Val: "head", Port: len(cfg.Ports()) - 1},
 			}
+			if cfg.Orca != "l1only" {
+				// served from L2 and back-filled into L1, at this size
+				ops = append(ops, wire.Op{Kind: "evict", Key: "sw"})
+			}
+			ops = append(ops, wire.Op{Kind: "get", Key: "sw"})
+			if cfg.Proto == "binary" {
+				ops = append(ops, wire.Op{Kind: "gat", Key: "sw", TTL: 3600})
+			}
+			ops = append(ops,
+				wire.Op{Kind: "replace", Key: "sw", Val: string(wire.GenValue((ln*3)/2+1, ln+7)), Flags: 0x80000001, Port: 0},
+				wire.Op{Kind: "get", Key: "sw", Port: len(cfg.Ports()) - 1},
+				wire.Op{Kind: "delete", Key: "sw"},
+				wire.Op{Kind: "get", Key: "sw"})
 			sc := SeqScenario{Harness: "C01", Cfg: cfg, Ops: ops}
 			var r *SeqResult
 			InBubble(c.T, func() { r = RunSeq(sc, SeqOpts{}) })
